@@ -79,6 +79,8 @@ type coordinator struct {
 	ensembleSelector selectors.Selector[*ensemble.Context, []string]
 
 	clusterConfigChangeCh chan any
+	// Closed once the coordinator has applied the configuration it was started with
+	initialized chan struct{}
 
 	assignmentsChanged concurrent.ConditionContext
 	assignments        *proto.ShardAssignments
@@ -117,6 +119,15 @@ func (c *coordinator) NodeControllers() map[string]controllers.NodeController {
 }
 
 func (c *coordinator) ConfigChanged(newConfig *model.ClusterConfig) {
+	// The configuration is already being watched while the coordinator starts up: a change must not be
+	// applied side by side with the initial assignment, or the same shards are created (and get a
+	// controller) twice
+	select {
+	case <-c.initialized:
+	case <-c.ctx.Done():
+		return
+	}
+
 	c.Lock()
 	defer c.Unlock()
 
@@ -397,6 +408,7 @@ func NewCoordinator(meta metadata.Provider,
 		drainingNodes:         make(map[string]controllers.NodeController),
 		rpc:                   rpcProvider,
 		statusResource:        resources.NewStatusResource(meta),
+		initialized:           make(chan struct{}),
 	}
 
 	c.ctx, c.cancel = context.WithCancel(context.Background())
@@ -460,5 +472,6 @@ func NewCoordinator(meta metadata.Provider,
 		"component": "coordinator-action-worker",
 	}, c.startBackgroundActionWorker)
 
+	close(c.initialized)
 	return c, nil
 }
